@@ -12,6 +12,7 @@ func emitAll(repo string) {
 	emitGenState(repo)
 	emitMapSites(repo)
 	emitDetInput(repo) // detinput.go: mergeImportKey, tmplTopDecls, enumConstRule
+	emitReadSites(t)   // readsites.go: readSites (C07)
 	// C01: tmpl.go (tmplSyms, tmplHeaders)
 	emitTmpl(repo)
 	// rest area (C06): restfacts.go (restDefaultHeaders, restBodyVerbs)
